@@ -117,11 +117,21 @@ pub fn record(out_path: &str, count: u64) {
                 let msgs: Vec<Result<(), String>> = STREAM_TARGETS.iter().map(|to| run(&b, fmt, to, reader, None).0).collect();
                 if msgs.iter().all(Result::is_err) {
                     let m: Vec<String> = msgs.into_iter().map(|r| r.unwrap_err()).collect();
-                    let same = m.iter().all(|x| *x == m[0]);
-                    let has_tf = m.iter().any(|x| x.contains("translation failed"));
+                    // The MessagePack target can write whatever any parser yields (every key type, binary, non-finite
+                    // floats), so its failure can only be the planted defect: the reference.  Another target may
+                    // fail EARLIER, on something the damaged text now denotes and it cannot represent (a mapping as a
+                    // key, say): that is an output-side failure and must read like one.
+                    let mi = STREAM_TARGETS.iter().position(|t| *t == "msgpack").expect("msgpack target");
+                    let reference = m[mi].clone();
+                    let output_side = |x: &str| match x.strip_prefix("translation failed") {
+                        Some(rest) => rest.split_once(": ").map(|(_, reason)| !reason.is_empty() && !reason.contains("translation failed")).unwrap_or(false),
+                        None => false,
+                    };
+                    let same = m.iter().all(|x| *x == reference || output_side(x));
+                    let has_tf = reference.contains("translation failed") || m.iter().any(|x| *x != reference && x.contains("translation failed") && !output_side(x));
                     rec(&mut sum, json!({"ev": "fail", "side": "input", "from": fmt, "to": "streaming", "reader": reader, "res": "err",
                                          "same_across_targets": same, "has_tf": has_tf, "reason_nonempty": true, "has_writer_msg": false,
-                                         "pos_ok": position_ok(&m[0], p),
+                                         "pos_ok": position_ok(&reference, p),
                                          "panic": m.iter().any(|x| x.starts_with("PANIC")), "msgs": m, "hex": hex(&b[..b.len().min(300)]), "at": p}),
                         format!("in/{fmt}/{:x}/{reader}", crate::obs::fnv(&b)));
                 }
